@@ -101,7 +101,7 @@ def run_tlc(module, cfg=None, workers=16, simulate=None, depth=None, extra=(), e
     jopts = ["-XX:+UseParallelGC", "-Xmx" + xmx]
     if dfs:
         jopts.append("-Dtlc2.tool.queue.IStateQueue=StateDeque")
-    cmd = ["timeout", str(timeout), "java", *jopts, "-cp", TLA_CP, "tlc2.TLC",
+    cmd = ["timeout", str(timeout), "java", *jopts, "-cp", TLA_CP, "tlc2.TLC", "-noGenerateSpecTE",
            "-workers", str(workers), "-metadir", md, "-config", cfg]
     if simulate:
         cmd += ["-simulate", "num=%d" % simulate]
@@ -153,9 +153,8 @@ def _parse_tlc(res):
         res.violated = "deadlock"
     elif re.search(r"Assumption .* is false", o):
         res.violated = "assumption"
-    elif "The postcondition" in o and "false" in o.lower() and "postcondition" in o.lower():
-        if re.search(r"[Pp]ostcondition.*(violated|false)", o):
-            res.violated = "postcondition"
+    elif re.search(r"[Pp]ostcondition.*(violated|false)", o):
+        res.violated = "postcondition"
     if res.violated:
         res.trace = re.findall(r"(?ms)^State \d+:.*?(?=^State \d+:|^\d+ states generated|\Z)", o)
     for m in re.finditer(r"^<(\w+) line \d+, col \d+ to line \d+, col \d+ of module \w+>: (\d+):(\d+)", o, re.M):
